@@ -239,12 +239,12 @@ def run(ctx):
     #         property (suspect-shaped configurations, no finding admitted): all are replayed on the real code
     g = 4 if th else 2
     gen("G_mem", bconf(GDepth=g, MaxOps=D), "memory")
-    gen("G_etcd_old", bconf(Kind="etcd", SetMaxShape="old", GDepth=g, MaxOps=D if th else 4,
+    gen("G_etcd_old", bconf(Kind="etcd", SetMaxShape="old", GDepth=3 if th else g, MaxOps=D if th else 4,
                             Counts=counts((1, 0), (2, 0), (0, 1))), "etcd")
     gen("G_etcd_old_in", bconf(Kind="etcd", SetMaxShape="old", GDepth=0, MaxOps=D if th else 4, Pre=pre_lit(MODEL_PRE_IN),
                                Fresh={False}), "etcd", pre=MODEL_PRE_IN)
     gen("G_snow", bconf(Kind="snowflake", GDepth=g, MaxOps=D - 1, Counts=counts((1, 0), (3, 0))), "snowflake")
-    gen("G_vids", bconf(WithVids=True, Vols={"v1"}, Counts=counts((1, 0)), GDepth=g + 1, MaxOps=g + 1), "memory")
+    gen("G_vids", bconf(WithVids=True, Vols={"v1"}, Counts=counts((1, 0)), GDepth=4 if th else 3, MaxOps=4 if th else 3), "memory")
     if th:
         gen("G_mem1", bconf(Masters={"m1"}, GDepth=g + 1, MaxOps=D), "memory", ["m1"])
         gen("G_etcd_split", bconf(Kind="etcd", CasRetry=False, Split=True, GDepth=g, MaxOps=7), "etcd")
